@@ -49,6 +49,7 @@ SEEDS = {
     "C16b-wall-odd-count-short": ("C16", "ResistiveWall constructed directly with an odd sample count: n-1 samples are returned (invisible through the factory)", []),
     "C11b-negative-start-record-means-last": ("C11", "an explicit --InitialDistStep of -2 or lower: every negative index loads the last record", []),
     "C19b-float-accumulated-modulation-phase": ("C19", "modulation active and many steps (thousands): the sine's argument is accumulated in single precision, the modulation frequency is off by 0.1-0.2 %", []),
+    "C17b-odd-padded-length-overread": ("C17", "RoundPadding=false and ceil(GridSize*padding) odd (e.g. -s 8 --padding 2.1) with an HDF5 output: updateCSR reads one complex sample past the end of the impedance", []),
     "C10-": ("C10", "", []),
     "C17-": ("C17", "", []),
 }
